@@ -4,7 +4,10 @@ and its OWN generator as constructed by the cassette (nothing is substituted: a 
 resolves to only records the draws that pass through it).
 
 case = {"kind": "s3hist", "bands": [[max_compressed_size or None, [n, d]], ..], "master": [payload length, ..],
-        "cassettes": [{"n": saves (prefix of master), "twin": other content and category, "share_bucket": bool}, ..],
+        "cassettes": [{"n": saves (prefix of master), "twin": other content and category, "share_bucket": bool,
+                       "via": "recorder" (the recordings are made by a real TapeRecorder around an operation that records
+                       the payload) or absent (recordings saved straight on the cassette), "outcomes": per save
+                       "return" / "raise" / "interrupt" (recorder only)}, ..],
         "schedule": [cassette index per save, in process order]}
 observation per cassette: per save {"ratio": [n, d], "size": compressed size, "kept": bool, "draws": [[n, d], ..] or None}."""
 import os
@@ -48,6 +51,31 @@ def make_calculator(bands, log):
     return calculator
 
 
+class OperationFailed(Exception):
+    """the recorded operation ends by raising"""
+
+
+class OperationInterrupted(BaseException):
+    """the recorded operation is interrupted (not an Exception subclass, like KeyboardInterrupt)"""
+
+
+def make_operation(recorder, twin, seen_ids):
+    """a class with one operation decorated by the REAL recorder: it records its payload and then returns / raises /
+    is interrupted; the recording is created, finished and handed to the cassette by TapeRecorder itself"""
+    class Operation(object):
+        @recorder.operation()
+        def execute(self, data, outcome):
+            seen_ids.append(recorder.current_recording_id)
+            recorder.record_data("payload", data)
+            if outcome == "raise":
+                raise OperationFailed("operation failed")
+            if outcome == "interrupt":
+                raise OperationInterrupted()
+            return "fine"
+    Operation.__name__ = "OperationTwin" if twin else "Operation"     # the class name is the recording's category
+    return Operation
+
+
 def run(case):
     s3c = fake_s3.install()
     _n[0] += 1
@@ -71,20 +99,37 @@ def run(case):
                     cas._random = tap
                 except AttributeError:                # not assignable: decisions only, draws stay unobserved
                     tap = None
-            live[i] = (cas, log, tap)
+            op_cls, seen_ids = None, []
+            if spec.get("via") == "recorder":
+                # the cassette is fed THROUGH a TapeRecorder (class sampling rate 1: the recorder keeps everything, the
+                # storage level decides), the way a service uses it
+                from playback.tape_recorder import TapeRecorder
+                recorder = TapeRecorder(cas, random_seed=110613)
+                recorder.enable_recording()
+                op_cls = make_operation(recorder, spec.get("twin"), seen_ids)
+            live[i] = (cas, log, tap, op_cls, seen_ids)
         return live[i]
 
     for i in case["schedule"]:
         spec = case["cassettes"][i]
-        cas, log, tap = cassette(i)
+        cas, log, tap, op_cls, seen_ids = cassette(i)
         pos = done[i]
         done[i] += 1
         n_calc, n_draws = len(log), (len(tap.log) if tap else 0)
-        rec = cas.create_new_recording("OpTwin" if spec.get("twin") else "Op")
-        rec.set_data("k", payload(case["master"][pos], pos, spec.get("twin")))
-        cas.save_recording(rec)
+        if op_cls is None:
+            rec = cas.create_new_recording("OpTwin" if spec.get("twin") else "Op")
+            rec.set_data("k", payload(case["master"][pos], pos, spec.get("twin")))
+            cas.save_recording(rec)
+            rec_id = rec.id
+        else:
+            outcome = (spec.get("outcomes") or ["return"])[pos % len(spec.get("outcomes") or ["return"])]
+            try:
+                op_cls().execute(payload(case["master"][pos], pos, spec.get("twin")), outcome)
+            except (OperationFailed, OperationInterrupted):
+                pass
+            rec_id = seen_ids[-1]
         try:
-            cas.get_recording(rec.id)
+            cas.get_recording(rec_id)
             kept = True
         except NoSuchRecording:
             kept = False
